@@ -317,10 +317,18 @@ func runC09(c *Ctx) {
 				x, op, cst, ok := ft.IntCmp()
 				return ok && (op == eng.GTR || op == eng.GEQ) && cst <= mv && eng.ObjOf(binfo, x) != nil
 			})
-			// cut index is the loop index of the address that overflowed
+			// cut index is the loop index of the address that overflowed (directly, or as the value a
+			// helper read in place hands back on that path)
 			okIdx := false
-			for x := p.Parent(as); x != nil; x = p.Parent(x) {
-				if r, isR := x.(*ast.RangeStmt); isR && r.Key != nil && se.High != nil && eng.SameExpr(binfo, r.Key, se.High) && se.Low == nil {
+			high := se.High
+			var from ast.Node = as
+			if o := eng.ObjOf(binfo, high); o != nil && high != nil {
+				if rhs, _ := bcf.LastAssign(bcf.BlockOf(as), o); rhs != nil {
+					high, from = rhs, rhs
+				}
+			}
+			for x := p.Parent(from); x != nil; x = p.Parent(x) {
+				if r, isR := x.(*ast.RangeStmt); isR && r.Key != nil && high != nil && eng.SameExpr(binfo, r.Key, high) && se.Low == nil {
 					okIdx = true
 				}
 			}
@@ -638,7 +646,16 @@ func runC09(c *Ctx) {
 			pmes := paramObj(f, "pmes")
 			strips, _ := cf.CallLocs("dht.stripPeerRecords")
 			for i, ret := range cf.Returns() {
-				if len(ret.Results) != 2 || !eng.IsObj(info, ret.Results[0], pmes) {
+				if len(ret.Results) != 2 {
+					continue
+				}
+				// `return stripPeerRecords(pmes), nil` echoes the stripped request by construction
+				if call, isStrip := eng.IsCallTo(info, ret.Results[0], "dht.stripPeerRecords"); isStrip && len(call.Args) == 1 && eng.IsObj(info, call.Args[0], pmes) {
+					n++
+					c.Check(K(f.Name, "echo#"+itoa(i)+" stripped"), ret.Pos(), true, "a handler that echoes the request strips its peer records first", "")
+					continue
+				}
+				if !eng.IsObj(info, ret.Results[0], pmes) {
 					continue
 				}
 				n++
